@@ -276,6 +276,12 @@ func oneRun(res *core.Result, pool *idPool, r *rand.Rand, rc runCfg, choices []i
 			if steps < len(choices) {
 				idx = choices[steps]
 			}
+			if idx >= n {
+				// the re-execution branched differently at this step (announcements carry wall-clock millisecond
+				// timestamps, and equal ones are dropped as duplicates): take the last in-flight frame instead
+				idx = n - 1
+				res.Count("dfs_schedules_diverged_on_replay", 1)
+			}
 			branch = append(branch, n)
 		case strings.HasPrefix(rc.order, "random"):
 			idx = r.IntN(n)
